@@ -1110,6 +1110,11 @@ def w_spec(c, d, n):
 class WTestNdarray:
     """_w_test_ndarray(x, m): Wilcoxon signed-rank z (normal approximation, tie correction, no continuity correction) and
     two-sided p of the non-zero differences x - m"""
+    # concrete samples (conventions of rt/oracles_eval.w_test_ndarray): ties in |d| between differences of opposite sign, zero
+    # differences, a shifted null median
+    directed = staticmethod(lambda: [('w_test_ndarray', dict(x=x, m=m)) for x, m in (
+        ([1.0, -1.0, 2.0, -2.0, 3.0, 0.5], 0.0), ([0.5, 0.5, -0.5, 1.5, -1.5, 1.5, 2.0], 0.0), ([1.0, 0.0, -2.0, 3.0, 0.0], 0.0),
+        ([1.25, 0.25, 2.25, -0.75, 3.25], 0.25), ([4.0, 1.0, 3.0, 2.0, 6.0, 5.0, 8.0, 7.0, 10.0, 9.0, 12.0], 0.0))])
     qualname = WTEST
     case = '1-d sample of arbitrary length, at least one difference distinct from the null median'
     properties = ('C08', 'C20')
